@@ -36,6 +36,11 @@ func implHD(f []string, o *oracleSink) string {
 	}
 	right := byte(refXXH32(hdr[4:]) >> 8)
 	cks := []int{int(right), int(right ^ 1), int(right ^ 0x80), int(right + 1)}
+	for _, c := range []int{0, 255} { // the byte values a "not set" test would single out
+		if c != int(right) && c != int(right^1) && c != int(right^0x80) && c != int(right+1) {
+			cks = append(cks, c)
+		}
+	}
 	if f[4] == "t" {
 		cks = cks[:0]
 		for c := 0; c < 256; c++ {
